@@ -60,6 +60,7 @@ type Obligation struct {
 // FnCtx is the verification context of one function under contract: all
 // obligations, assumptions and declarations generated from it.
 type FnCtx struct {
+	frame *frameInfo // modifies clause of the function under verification (nil: no frame check)
 	eng     *Engine
 	root    *ssa.Function
 	decls   *Decls
